@@ -302,6 +302,11 @@ func PrimeSqrt(a *big.Int, pa *big.Int) (*big.Int, bool) {
 		return big.NewInt(0), true // should be a new big int!
 	}
 
+	// Modulo 2 every number is its own square root (and there is no non-residue to search for).
+	if pa.Cmp(big.NewInt(2)) == 0 {
+		return new(big.Int).Mod(a, pa), true
+	}
+
 	// Check number is a square
 	validation := new(big.Int).Exp(a, new(big.Int).Rsh(pa, 1), pa)
 	if validation.Cmp(bigONE) != 0 {
